@@ -141,3 +141,92 @@ class Burners:
         self.stop_flag = True
         for t in self.threads:
             t.join(1)
+
+
+class Failpoint:
+    """Source-free failpoint: raises an exception at the n-th statement that the
+    arming thread executes inside a given set of code objects (LINE events of
+    sys.monitoring, own tool id).  count(): a dry pass that only counts."""
+
+    TOOL = 5
+
+    def __init__(self, codes):
+        self.codes = list({id(c): c for c in codes}.values())
+        self.n = 0
+        self.nth = None
+        self.exc = None
+        self.tid = None
+        self.fired_at = None
+
+    def __enter__(self):
+        _mon.use_tool_id(self.TOOL, 'vf-failpoint')
+        _mon.register_callback(self.TOOL, _mon.events.LINE, self._on_line)
+        for c in self.codes:
+            _mon.set_local_events(self.TOOL, c, _mon.events.LINE)
+        return self
+
+    def __exit__(self, *a):
+        self.nth = None
+        for c in self.codes:
+            try:
+                _mon.set_local_events(self.TOOL, c, 0)
+            except Exception:
+                pass
+        _mon.register_callback(self.TOOL, _mon.events.LINE, None)
+        _mon.free_tool_id(self.TOOL)
+        return False
+
+    def arm(self, nth, exc):
+        """nth None: count only."""
+        self.n = 0
+        self.nth = nth
+        self.exc = exc
+        self.tid = threading.get_ident()
+        self.fired_at = None
+
+    def disarm(self):
+        self.tid = None
+
+    def _on_line(self, code, line):
+        if self.tid != threading.get_ident():
+            return
+        self.n += 1
+        if self.nth is not None and self.n == self.nth:
+            self.tid = None
+            self.fired_at = (code.co_qualname, line)
+            raise self.exc
+
+
+def module_codes(mods, exclude=()):
+    """All code objects (nested ones included) defined in the given modules,
+    without those whose qualified name is in `exclude`."""
+    import types
+    out = {}
+
+    def add_code(c):
+        if c.co_qualname in exclude or id(c) in out:
+            return
+        out[id(c)] = c
+        for k in c.co_consts:
+            if isinstance(k, types.CodeType):
+                add_code(k)
+
+    def walk(obj, modname, depth=0):
+        if isinstance(obj, (staticmethod, classmethod)):
+            obj = obj.__func__
+        if isinstance(obj, property):
+            for f in (obj.fget, obj.fset, obj.fdel):
+                if f is not None:
+                    walk(f, modname, depth)
+            return
+        if isinstance(obj, types.FunctionType):
+            if obj.__module__ == modname:
+                add_code(obj.__code__)
+            return
+        if isinstance(obj, type) and obj.__module__ == modname and depth < 4:
+            for v in vars(obj).values():
+                walk(v, modname, depth + 1)
+    for m in mods:
+        for v in list(vars(m).values()):
+            walk(v, m.__name__)
+    return list(out.values())
